@@ -395,6 +395,7 @@ void runCase(uint64_t c, rt::Rng rng, const std::string &dir, long maxLen) {
 
 int main(int argc, char **argv) {
     rt::init(argc, argv);
+    rt::cpuBudgetPerCase(240);   // single-threaded, deterministic: a case that burns 240 s of CPU time does not terminate
     // "Can't close file" etc. go to std::cerr; keep fd 2 for the sanitizers
     std::string dir = fs::absolute("h_file_" + std::to_string(getpid())).string();
     fs::create_directories(dir);
